@@ -137,6 +137,16 @@ def single_faults(tc: bool, tier: str) -> List[List]:
             for k in (1, 2, 3, 5):
                 for trig in ("publish", "ctl", "timers"):
                     out.append(["adie", role, how, k, trig])
+    # ... a MESSAGE_TRAFFIC / TIMING subscriber dies in the middle of a report that spans several sub-messages (70 distinct types seen)
+    for role in ("trafficsub", "timingsub"):
+        for how in ("fin", "rst"):
+            for k in (1, 2, 3):
+                out.append(["adie", role, how, k, "reports"])
+    # ... an exclusive newcomer asks for an id that two connections share (both allow multiple instances): whoever is refused, the
+    # holders stay connected, acknowledged and served
+    for am in (0, 1):
+        for how in ("stay", "fin"):
+            out.append(["shared-id-newcomer", am, how])
     # ... a connecting module dies right before the manager's k-th send of the round that serves its own CONNECT
     for role in ("newlogger", "newmodule"):
         for how in ("fin", "rst"):
@@ -156,6 +166,7 @@ class Ctx:
         else:
             self.w = mmx.World(timecode=tc, log_level=log_level, fin_grace=grace)
         self.n = 0
+        self.extra: List[Dict[str, Any]] = []  # problems found by a fault's own follow-up
         self.flip = flip
         self.monitor = monitor
         self.mid = 40
@@ -290,6 +301,37 @@ def apply_fault(cx: Ctx, fault: Sequence, name: str = "X", hid=None) -> List[str
         # the bystander publishes in the same round: the manager meets the dead connections on its write side
         w.clients["P"].send(P.mkframe(T1, b"wdie", timecode=tc, src_mod_id=21))
         return [name, "P"]
+    if kind == "shared-id-newcomer":
+        _, am, how = fault
+        tc = cx.tc
+        H = []
+        for i in range(2):
+            h = cx.new(f"{name}H{i}", None)
+            w.settle()
+            h.send(_frame(tc, P.MT_CONNECT_V2, P.P_CONNECT_V2.pack(0, 0, 1, 70, 500 + i, b"shared"), src_mod_id=70) + _frame(tc, P.MT_SUBSCRIBE, P.p_sub(T1), src_mod_id=70))
+            w.settle()
+            h.drain()
+            H.append(h)
+        X = cx.new(name, hid)
+        w.settle()
+        X.send(_frame(tc, P.MT_CONNECT_V2, P.P_CONNECT_V2.pack(0, 0, am, 70, 9, b"shared"), src_mod_id=70))
+        w.settle()
+        if how == "fin":
+            X.fin()
+            w.settle()
+        # the holders: still acknowledged and served
+        for h in H:
+            h.send(_frame(tc, P.MT_SUBSCRIBE, P.p_sub(1002), src_mod_id=70))
+        w.settle()
+        w.clients["P"].send(P.mkframe(T1, b"share", timecode=tc, src_mod_id=21))
+        w.settle()
+        for i, h in enumerate(H):
+            got = [P.normalize(f) for f in h.drain()]
+            if h.gone or getattr(h.sock, "peer", "open") != "open" or sum(1 for k in got if k[0] == "ack") != 1 or sum(1 for k in got if k[0] == "fwd" and k[3] == b"share") != 1:
+                cx.extra.append({"prop": "C03", "kind": "innocent-holder-disturbed", "holder": i, "newcomer_allows_multiple": am,
+                                 "detail": f"a newcomer (allow_multiple={am}) asked for the id two connections share; holder {i} is no longer connected / acknowledged / served",
+                                 "connection": getattr(h.sock, "peer", "?"), "got": [list(k)[:3] for k in got][:4]})
+        return [name]
     if kind == "markup":
         # a printable-ASCII name that looks like console markup, then records about that client at every level
         _, nmhex, via = fault
@@ -314,6 +356,20 @@ def apply_fault(cx: Ctx, fault: Sequence, name: str = "X", hid=None) -> List[str
     if kind == "adie":
         _, role, how, k, trig = fault
         tc = cx.tc
+        if role in ("trafficsub", "timingsub"):
+            D = position(cx, name, "connected", hid)
+            cx.sub(D, D.mid, P.MT_MESSAGE_TRAFFIC if role == "trafficsub" else P.MT_TIMING_MESSAGE)
+            w.settle()
+            w.tick(1.05)
+            w.step()
+            w.settle()
+            # 70 distinct types in this interval: the traffic report needs more than one sub-message
+            w.clients["P"].send(b"".join(P.mkframe(3000 + i, b"", timecode=tc, src_mod_id=21) for i in range(70)))
+            w.settle(limit=10 ** 4)
+            w.kill_plan = (k, [D], how)
+            w.tick(1.05)
+            w.step()
+            return [name, "P"]
         if role in ("newlogger", "newmodule"):
             D = position(cx, name, "accepted", hid)
             w.kill_plan = (k, [D], how)
@@ -426,6 +482,7 @@ def execute(case) -> Dict[str, Any]:
                 return {"problems": [], "skipped": True, "nready": nready}
             w.step(order)
         probs += oracle(cx, "after-fault")
+        probs += [dict(p, tag="after-fault") for p in cx.extra]
         if not probs:
             for dt in (0.95, 0.2, 5.0):
                 w.tick(dt)
